@@ -449,7 +449,7 @@ def main(chk: Check, replay: dict | None = None) -> int:
     if chk.model_ok:
         codes = chk.coq_eval("From PG Require Import Lib.Strs Model.Dispatch Corr.C06.", "input * obs",
                              [c_case(c) for c in cases], "run", shard=1500 if chk.thorough else 1000)
-    chk.decide(cases, codes, {1: "F06e"},
+    chk.decide(cases, codes, {},
                "Corr.C06.run: call(model) = outcome of the generated client's method under MockTransport")
     # function-level: the three copies of _get_primary_response
     pc = primary_cases(rng, 6000 if chk.thorough else 1500)
